@@ -70,10 +70,14 @@ int Futex::wake_all() noexcept {
   BABYLON_VERIF_POINT("cofutex:wake_all_unlocked");
   // Resume when remove nodes and get their ownership successfully.
   int waked = 0;
-  for (auto node = head; node != nullptr; node = node->next) {
+  for (auto node = head; node != nullptr;) {
+    // Slot can be reused by new waiter immediately after finish_released, read
+    // next before that.
+    auto next_node = node->next;
     node->promise->resume(node->handle);
     box.finish_released(node->id);
     BABYLON_VERIF_POINT("cofutex:wake_all_finished_node");
+    node = next_node;
     waked++;
   }
   return waked;
